@@ -34,6 +34,7 @@ RULE += (' Also: exceptions with lenient equality.')
 RULE += (' Also: call objects created up-front and started later.')
 RULE += (' Also: class-based managers whose exit answers a clean exit with a true value: the result of the call is still handed on.')
 RULE += (" Also: bodies ending with a BaseException that is no Exception while the context's clean-up fails with its own exception; class managers whose exit is a staticmethod / classmethod.")
+RULE += (' Also: generator managers taking a single coroutine function (a hook) as their argument.')
 ASSUMPTIONS = ["class-based ContextDecorator instances are shared between calls (documented default of _recreate_cm)"]
 EXHAUSTIVE_SUBSPACES = 'every scenario counted in scenarios_explored_exhaustively had ALL its interleavings executed'
 EXHAUSTIVE = {"quick": False, "thorough": False}
@@ -57,7 +58,7 @@ def cases(tier, seed, shard, nshards):
             calls = [[rng.choice(["ret", "ret", "raise"]) for _ in range(rng.randint(1, 5 if nt == 1 else 3))] for _ in range(nt)]
             susp = {"enter": rng.choice([0, 1, 2]), "body": rng.choice([0, 1, 2]), "exit": rng.choice([0, 1, 2])}
         manager = rng.choice(["generator", "generator", "class", "lease"])
-        yield {"mode": mode, "manager": manager, "clean_exit_truthy": rng.random() < 0.4, "exit_binding": rng.choice(["method", "method", "static", "class"]), "suppress": rng.choice([False, False, False, True, True, "all"]), "body_kind": rng.choice(["async", "async", "eager"]),
+        yield {"mode": mode, "manager": manager, "clean_exit_truthy": rng.random() < 0.4, "hook_arg": rng.random() < 0.25, "exit_binding": rng.choice(["method", "method", "static", "class"]), "suppress": rng.choice([False, False, False, True, True, "all"]), "body_kind": rng.choice(["async", "async", "eager"]),
                "direct": rng.random() < 0.25 and manager != "lease",
                "calls": calls, "susp": susp, "cancel_task": rng.randrange(nt) if rng.random() < 0.45 else None,
                "runs": DFS_LIMIT[tier] if mode == "dfs" else RANDOM_RUNS[tier], "seed": rng.randrange(1 << 30),
@@ -146,8 +147,11 @@ def execute(case, choose, cancel_at=None):
         raise new
 
     if case["manager"] == "generator":
+        async def _hook(*args):
+            return "the hook ran"
+
         @A.contextmanager
-        async def manager():
+        async def manager(hook=None):
             counter["gid"] += 1
             gid = counter["gid"]
             ev.append((CTX.current, "enter", gid))
@@ -168,7 +172,8 @@ def execute(case, choose, cancel_at=None):
                 if susp["exit"]:
                     await Suspend(("exit", gid), susp["exit"])
 
-        deco = manager()
+        # (a manager taking a single coroutine function as ITS argument - a notification hook: an argument like any other)
+        deco = manager(_hook) if case.get("hook_arg") else manager()
     elif case["manager"] == "lease":
         class Lease(A.ContextDecorator):
             """Reusable but not re-entrant: hands out itself while idle and a fresh copy while in use - so what
